@@ -1,6 +1,7 @@
 #!/bin/sh
 # Runs the pinned suite (guard off) and compares with BASELINE.json stable_pass. Scratch output under /scratch.
 mkdir -p /scratch/baseline
+export OMP_NUM_THREADS=1 OPENBLAS_NUM_THREADS=1 MKL_NUM_THREADS=1 OMP_WAIT_POLICY=passive GOMP_SPINCOUNT=0
 cd /repo && env -u FAIRLEARN_VERIF /venv/bin/python -m pytest -ra -q -p no:cacheprovider --timeout=900 --continue-on-collection-errors --junitxml=/scratch/baseline/run.xml > /scratch/baseline/run.log 2>&1
 python3 - <<'PY'
 import json, xml.etree.ElementTree as ET
